@@ -23,6 +23,15 @@ func gen(r *hx.Run) []json.RawMessage {
 }
 
 func exec(r *hx.Run, prog []json.RawMessage) {
+	if r.CfgBool("conc") {
+		switch r.Cfg["mode"] {
+		case "dbrp":
+			execDBRPConc(r, prog)
+		default:
+			execTenantConc(r, prog)
+		}
+		return
+	}
 	switch r.Cfg["mode"] {
 	case "dbrp":
 		execDBRP(r, prog)
